@@ -9,7 +9,8 @@
     fuel_irrelevant_impl fuel_irrelevant_doc impl_eq_doc no_output_when_doc_fails no_output_when_impl_fails impl_fails_when_doc_fails
     failing_renders_agree
     if_false_removes if_true_transparent for_eq_unrolled choose_first_match_only
-    attr_form_eq_elem_form_partial replace_eq_content_strip_partial
+    attr_form_eq_elem_form_ctl replace_eq_content_strip_partial
+    macro_representation_irrelevant attr_form_eq_elem_form
     extract_flat_eq_tree construction_pipeline_eq_compile text_parse_eq_tree text_pipeline_eq_compile
     direlem_attrs_witness
 -/
@@ -18,6 +19,7 @@ import Genshi.Lemmas.TmplSimRev
 import Genshi.Lemmas.TmplSimErr
 import Genshi.Lemmas.TmplSimRevErr
 import Genshi.Lemmas.TmplEquiv
+import Genshi.Lemmas.TmplParam
 import Genshi.Lemmas.TmplExtract
 import Genshi.Lemmas.TmplText
 namespace Genshi.Props.C04
@@ -355,17 +357,11 @@ theorem choose_first_match_only (pre post : List Branch) (b : Branch) (st st' : 
     have := IOk.flat_append hskip (IOk.flat_cons ((hbranch _ _).2 h) (hafter _ _ h))
     simpa using this
 
-/-
-  Full statement (kept visible): for *every* directive with an element form.
-  Proved for when / otherwise / for / if / choose / with in any number and order of nesting;
-  `py:def` is excluded: the macro it stores differs syntactically (same behaviour, different
-  state), so the statement needs an equivalence of states up to macro behaviour.  `py:replace`
-  in element form is `replace_eq_content_strip_partial` / `tail_after_replace`.
--/
-/-- Attribute form = element form: directives written as nested directive elements in the
-    documented order around the element (which keeps `stay` as attributes) render exactly as
-    the same directives written as attributes of that element. -/
-theorem attr_form_eq_elem_form_partial (pre stay : List Dir) (tag : Name) (attrs : List (Name × Str))
+/-- Attribute form = element form, control directives (when/otherwise/for/if/choose/with): nested
+    directive elements in the documented order around the element (which keeps `stay` as
+    attributes) render exactly as the same directives written as attributes — same output
+    *and the very same state* afterwards.  (`py:def` included: `attr_form_eq_elem_form` below.) -/
+theorem attr_form_eq_elem_form_ctl (pre stay : List Dir) (tag : Name) (attrs : List (Name × Str))
     (kids : List TNode) (hpre : ∀ d ∈ pre, d.ctl = true) (hs : StrictSorted (pre ++ stay))
     (st st' : St) (o : List Event) :
     IOk (.flat (compileNode (nestNodes pre (.elem tag attrs stay kids)))) st o st' ↔
@@ -392,10 +388,47 @@ theorem attr_form_eq_elem_form_partial (pre stay : List Dir) (tag : Name) (attrs
   simp only [compileNode, sortBy_implIdx_of_sorted _ hs, attach_ctl_prefix pre hpre stay]
   exact IOk.mkSub_iff.symm
 
+/-- **The stored form of a macro is unobservable.**  `StRel a b`: the states agree except that
+    a macro may be stored as a directive chain over the element's sub-stream in one and as nested
+    SUB events in the other (what `py:def` stores for the attribute form and for the element
+    form).  Every task renders the same output from related states and ends in related states. -/
+theorem macro_representation_irrelevant (T : ITask) (st st' s1 : St) (o : List Event)
+    (h : IOk T st o s1) (hr : StRel st st') : ∃ s1', IOk T st' o s1' ∧ StRel s1 s1' :=
+  param h hr
+
+/-- **Attribute form = element form, all directives with an element form** (def, when, otherwise,
+    for, if, choose, with; any number, nested in the documented order; the element keeps `stay`
+    — content/attrs/strip, or anything else — as attributes).  From related states (in particular
+    from the same state) both forms render the same output and end in related states, i.e.
+    states no later rendering can tell apart (`macro_representation_irrelevant`): the only
+    difference is how a `py:def` among the directives stored its macro. -/
+theorem attr_form_eq_elem_form (pre stay : List Dir) (tag : Name) (attrs : List (Name × Str))
+    (kids : List TNode) (hpre : ∀ d ∈ pre, d.ctlDef = true) (hs : StrictSorted (pre ++ stay))
+    (st st' : St) (hr : StRel st st') (o : List Event) (s1 : St) :
+    (IOk (.flat (compileNode (nestNodes pre (.elem tag attrs stay kids)))) st o s1 →
+      ∃ s1', IOk (.flat (compileNode (.elem tag attrs (pre ++ stay) kids))) st' o s1' ∧ StRel s1 s1') ∧
+    (IOk (.flat (compileNode (.elem tag attrs (pre ++ stay) kids))) st o s1 →
+      ∃ s1', IOk (.flat (compileNode (nestNodes pre (.elem tag attrs stay kids)))) st' o s1' ∧ StRel s1 s1') := by
+  let body : List CEv := .start tag attrs :: (compileNodes kids ++ [.end_ tag])
+  have hinner : compileNode (.elem tag attrs stay kids) = mkSub (attach stay body).1 (attach stay body).2 := by
+    simp only [compileNode, sortBy_implIdx_of_sorted stay hs.suffix, body]
+  have hL := compile_nestNodes pre hpre _ _ _ hinner
+  have hR : compileNode (.elem tag attrs (pre ++ stay) kids) =
+      mkSub (pre ++ (attach stay body).1) (attach stay body).2 := by
+    simp only [compileNode, sortBy_implIdx_of_sorted _ hs, attach_ctlDef_prefix pre hpre stay, body]
+  rw [hL, hR]
+  constructor
+  · intro h
+    obtain ⟨s1', r, g⟩ := chain_of_nest hpre h hr
+    exact ⟨s1', IOk.mkSub r, g⟩
+  · intro h
+    exact nest_of_chain hpre (IOk.mkSub_iff.1 h) hr
+
 /-
   Full statement (kept visible): with any further directives on the element.
   Proved with control directives (when/otherwise/for/if/choose/with) before it; excluded:
-  `py:def` (state equivalence up to macro behaviour, as above) and `py:attrs` on the same
+  `py:def` before it (would need the replace/content+strip pair as a further generator of the
+  macro relation of `macro_representation_irrelevant`) and `py:attrs` on the same
   element (content+strip evaluates its expression, replace does not: the outputs agree
   whenever that evaluation succeeds — exercised by the oracle, not proved).
 -/
@@ -455,12 +488,21 @@ example : textNodes [.delem (.for_ ['x'] (.var ['x', 's'])) [.text ['a'], .delem
   decide
 
 /-- the hypotheses of the equivalence theorems are satisfiable on non-trivial inputs -/
+private def exSt0 : St := St.init [(['x', 's'], .list [.int 1, .int 2])]
+
 private def exPre : List Dir := [.for_ ['x'] (.var ['x', 's']), .if_ (.var ['x']), .with_ [(['y'], .var ['x'])]]
 
 example : (∀ d ∈ exPre, d.ctl = true) ∧ StrictSorted (exPre ++ [.attrs (.var ['w']), .strip none]) ∧
     StrictSorted (exPre ++ [.replace (.pure (.var ['y']))]) ∧
     StrictSorted (exPre ++ [.content (.pure (.var ['y'])), .strip none]) := by
   refine ⟨by decide, ?_, ?_, ?_⟩ <;> simp [StrictSorted, exPre, Dir.rank]
+
+/-- … also with a `py:def` among the nested directives (`attr_form_eq_elem_form`) -/
+example : (∀ d ∈ Dir.def_ ['f'] [['p']] :: exPre, d.ctlDef = true) ∧
+    StrictSorted ((Dir.def_ ['f'] [['p']] :: exPre) ++ [.attrs (.var ['w']), .strip none]) ∧
+    StRel exSt0 exSt0 := by
+  refine ⟨by decide, ?_, StRel.refl _⟩
+  simp [StrictSorted, exPre, Dir.rank]
 
 /-- `py:choose` with two `py:when`: the first does not match, the second does -/
 private def exSt : St := ⟨[], [(['x'], .atom (.int 2))], [⟨false, true, .atom (.int 2)⟩], []⟩
